@@ -42,6 +42,28 @@ example : ∃ r ∈ rules, r.1 = "E" ∧ (r.2.filter (· == "n")).length = 4 := 
     machine of Props/C16Sym.lean assumes (`use_ignores_context`) -/
 theorem contexts_share_symbols : contextsShareSymbols = true := by decide
 
+/-- the modules of the netlist / memo layer: what computes and stores the memoised analyses -/
+def netlistLayer : List String := ["netlist.py", "netlistmixin.py", "netlistopsmixin.py", "netlistsimplifymixin.py", "netfile.py",
+  "mna.py", "subnetlist.py", "circuitgraph.py", "analysis.py", "components.py", "nodalanalysis.py", "loopanalysis.py",
+  "statespacemaker.py", "laddernetworkmaker.py", "simulator.py", "nodes.py", "node.py", "mnacpts.py"]
+
+/-- no module of the netlist / memo layer reads a `state.<setting>`: the settings are consulted by the expression
+    layer only (expr.py, texpr.py, sexpr.py, current.py, ...), i.e. at the time an expression is built, transformed or
+    printed -- this is the `f elts env` of Props/C16Env.lean; whether a memoised analysis is sensitive to a setting is
+    then decided on the real code by the toggle oracle -/
+theorem netlist_layer_reads_no_state_setting : ∀ m ∈ stateSettingReaders, m ∉ netlistLayer := by decide
+
+/-- the table is not empty: the settings ARE read somewhere -/
+example : "expr.py" ∈ stateSettingReaders ∧ settings.length ≥ 10 := by decide
+
+/-- no function of the package has a mutable default argument (`def f(..., p={})`): no dictionary / list is shared by
+    all calls of the process (side condition of Props/C16Alias.lean `renumber_history_independent`) -/
+theorem no_mutable_default_arguments : mutableDefaults = [] := by decide
+
+/-- no function of the package mutates an object owned by one of its arguments through an un-copied alias
+    (`x = arg.attr; x.set(...)`): side condition of Props/C16Alias.lean `derivations_keep_source` -/
+theorem arguments_not_mutated_through_alias : argAliasMutations = [] := by decide
+
 /-- `_invalidate` only names members that are memoised (anything else would raise) -/
 theorem cleared_are_memoised : ∀ s ∈ config.cleared, (config.kindOf s).isSome = true := by decide
 
